@@ -29,13 +29,13 @@ CHECKS = {
  "C18": dict(
    category="exploration",
    technique="deterministic simulation of 2..16 caller threads under a seeded baton scheduler (real threads, one runs at a time, every hand-off drawn from the seed and recorded), self-reference oracle; plus a Miri many-seeds slice (second seeded scheduler, basic-block preemption, data-race detector) in both tiers",
-   text="Caller threads run seeded programs over the whole search API on one shared Regex and on clones; they can lose the CPU at every VM instruction, backtrack, delegate call and API/iterator seam, and the seeded scheduler decides every hand-off (uniform, PCT-like and operation-boundary policies, swarm-varied). A third of the scenarios also exercise the regex life cycle across threads (a thread drops a regex and compiles a sibling into a mailbox, others search with whatever is there). Every call must return exactly what the same call returns alone on a fresh Regex; no panic difference, no deadlock. The schedule is the replay file. Send/Sync/Clone are asserted at compile time. Small 3-thread programs over the shipped (hook-free) library (API rotation on a shared regex and an in-thread clone; handles and results dropped on different threads; every thread replacing with its own $-template) are additionally interpreted by Miri over a window of scheduler seeds (3x16 quick / 6x96 thorough); a failing Miri seed is the replay.",
+   text="Caller threads run seeded programs over the whole search API on one shared Regex and on clones; they can lose the CPU at every VM instruction, backtrack, delegate call and API/iterator seam, and the seeded scheduler decides every hand-off (uniform, PCT-like and operation-boundary policies, swarm-varied). A third of the scenarios also exercise the regex life cycle across threads (a thread drops a regex and compiles a sibling into a mailbox, others search with whatever is there). Every call must return exactly what the same call returns alone on a fresh Regex; no panic difference, no deadlock. A volume slice (12 runs quick / 160 thorough) puts 3..6 threads into searches that each hold 450k..850k pending alternatives at the same moment (lock-step hand-offs), which is where anything accounted per process instead of per search shows. The schedule is the replay file. Send/Sync/Clone are asserted at compile time. Small 3-thread programs over the shipped (hook-free) library (API rotation on a shared regex and an in-thread clone; handles and results dropped on different threads; every thread replacing with its own $-template) are additionally interpreted by Miri over a window of scheduler seeds (3x16 quick / 6x96 thorough); a failing Miri seed is the replay.",
    note="Interleavings are explored at yield-point granularity; races below that granularity (unsafe code, or lock/unlock sequences between two yield points) are left to the Miri slice, which is small because Miri is slow (about 4 s per execution). regex-automata runs real code in both.",
    design="4.4"),
  "C20": dict(
    category="exploration",
    technique="deterministic simulation of rollback/commit histories against a whole-state-copy reference model, at the hooked State API and shadowing real VM runs, with capacity and limit faults",
-   text="Seeded legal operation histories (create/abandon alternative, write slot, aux push/pop, enter/commit atomic, raw cut, capacity faults) are executed against the VM's private State through the hook wrapper and against a model that keeps complete copies; slots, auxiliary stack, depth and return values are compared after every operation. The same model shadows real vm::run executions through the observer hook, adding bracket discipline (every EndAtomic commits, against its own BeginAtomic's marker and depth), negative-look-around unwinding to its own alternative, result-slot equality, and the one caller-visible consequence that needs no reference matcher (a group inside a negative look-around is unset in every result), also under injected limit aborts.",
+   text="Seeded legal operation histories (create/abandon alternative, write slot, aux push/pop, enter/commit atomic, raw cut, capacity faults) are executed against the VM's private State through the hook wrapper and against a model that keeps complete copies; slots, auxiliary stack, depth and return values are compared after every operation (3 slots and 3 values as the statement's own bound, plus large-commit, wrap-window and wide histories: up to 200 slots with writes next to the 64 / 128 boundaries, up to 300 operations). The same model shadows real vm::run executions through the observer hook, adding bracket discipline (every EndAtomic commits, against its own BeginAtomic's marker and depth), negative-look-around unwinding to its own alternative, result-slot equality, and the one caller-visible consequence that needs no reference matcher (a group inside a negative look-around is unset in every result), also under injected limit aborts.",
    note="Trusts the read-only view of State (slots, live aux stack, depth). A generated run that consumes a conditional's leaked atomic marker (listed known finding, recognised by its call-site signature) is counted and not checked past that point.",
    design="4.5"),
 }
